@@ -42,6 +42,10 @@ def generate(rng, tier):
     # a Doist that already holds deeds (a hand-driven enter() and some recur()s, never exited) is then given the
     # doers again with do(doers=...) / ado(doers=...): both start from scratch
     out += sc.gen_manual(rng, 40 * n, thens=("do",))
+    # the temp setting: the Doist's own and the one given to the run reach every doer's enter context alike
+    for p in out:
+        if not p.get("manual") and rng.random() < 0.2:
+            p["temp"] = [rng.choice([None, True, False]), rng.choice([None, True, False])]
     return out
 
 
@@ -57,7 +61,7 @@ def oracle(case, obs):
         why = sc.clock_oracle(o)
         if why:
             return ("ado(): " if o is a else "do(): ") + why
-    for key in ("trace", "dones", "tyme", "scheds", "raised"):
+    for key in ("trace", "dones", "tyme", "scheds", "raised", "temps"):
         if d[key] != a[key]:
             if key == "trace":
                 for n, (x, y) in enumerate(zip(d["trace"], a["trace"])):
